@@ -273,7 +273,18 @@ def r5(ctx, R):
             continue
         name = (x.cls.name + '.' if x.cls else '') + x.fn.name
         c = f'{name} :: {x.target} = {x.rhs()}'
-        if name in allowed_done:
+        if name in allowed_done and name.endswith('.it_check'):
+            # inside it_check the flag may only be narrowed: the new value implies the decision taken for THIS step
+            rhs = x.rhs()
+            own = f'{x.receiver}.done'
+            try:
+                nf = bool_nf(ast.parse(rhs, mode='eval').body)
+            except SyntaxError:
+                nf = None
+            conj = isinstance(nf, tuple) and nf[0] == 'and' and own in nf[1]
+            univ = re.fullmatch(r'all\(\(?(\w+)\.status\.done for \1 in local_MS_running\)?\)', rhs) is not None
+            R.check(conj or univ, c, x.qual, f'{own} and <more> | all(T.status.done for T in local_MS_running): a step is never declared finished without its own convergence decision', rhs)
+        elif name in allowed_done:
             R.ok(c, x.qual, found='sanctioned writer')
         elif name in table_exc:
             R.exc(c, x.qual, table_exc[name])
